@@ -180,6 +180,11 @@ func (pr *PolicyResolver) OnPolicyMatchStopped(policyKey model.PolicyKey, endpoi
 	// This policy is not active anymore, we no longer need to track it for sorting.
 	if !pr.policyIDToEndpointIDs.ContainsKey(policyKey) {
 		pr.policySorter.UpdatePolicy(policyKey, nil)
+		// If the policy started matching since the last flush, it is still queued to be added to
+		// the sorter on the next flush.  Drop that too: an unmatched policy must not be in the
+		// sorter, because OnUpdate ignores metadata changes of unmatched policies and
+		// OnPolicyMatch would later reuse the stale entry.
+		pr.pendingPolicyUpdates.Discard(policyKey)
 	}
 
 	pr.dirtyEndpoints.Add(endpointKey)
